@@ -30,6 +30,7 @@ def tasks(tier):
     from contracts import recode_c
 
     t += [dict(name="recode.tail", build=recode_c.t_recode_tail, mode="U")]
+    t += _core.descriptor_tasks() + _core.keyword_decorator_tasks()
     t += _gen.entry_tasks(tier) + _gen.dep_tasks(tier)  # value dispatchers of methods pass the instance on (families with self)
     return t
 
